@@ -107,7 +107,7 @@ def run(R):
             rs = [q.src(n.value) for n in q.scope_nodes(call.node) if isinstance(n, ast.Return)]
             R.check(okc and rs == ["%s()" % co[0].node.name] if co else False, "C19.FORWARD", call.qualname + ":wrap", R.site(call),
                     ".asyncio(...) returns a coroutine of replacement(...)", ".asyncio(...) does not return a coroutine of the replacement's result")
-        init = c.methods.get("__init__")
+        init = c.find_method("__init__")
         oki = init is not None and any(q.src(x) == "object.__setattr__(self, '_mock_fn', mock_fn)" for x in ast.walk(init.node) if isinstance(x, ast.Call))
         R.check(oki, "C19.FORWARD", c.qualname + ":init", R.site(init) if init else c.qualname, "the wrapper remembers the replacement it was built for", "the wrapper no longer stores its replacement")
     # ---- _maybe_wrap_new
